@@ -67,6 +67,9 @@ func runC06(c *Ctx) {
 	c.obWriters("Conn.bytesReceived", "grows with accepted chunks, zeroed at every transaction end", "(*Conn).handleBdat", "(*Conn).reset")
 	// a message over the limit is answered 552 only if the drain still finds the end marker: the reader keeps its framing
 	ruleDotStructure(c)
+	// "the transaction is discarded": the delivery goroutine of a message refused with 552 reports through what it
+	// captured for that message, never through connection fields the next message has replaced
+	ruleGoCapture(c)
 	R := c.R
 	_, s := c.Std()
 
